@@ -65,7 +65,7 @@ def _child(site_desc, opts, conc, seed, workdir, logpath, kill):
     rc = 3
     try:
         res, _ = cc.run_real(site, opts, seed, conc, workdir=workdir, db=os.path.join(workdir, 'crawl.db'),
-                             event_sink=sink, on_request=on_request)
+                             event_sink=sink, on_request=on_request, start_urls=site.start_urls() if site.inputs else None)
         os.write(fd, (json.dumps({'op': 'exit', 'exit_code': res.exit_code, 'hung': res.hung, 'error': res.error,
                                   'counters': counters}) + '\n').encode())
         rc = 0
@@ -135,7 +135,7 @@ def one_kill(args):
     site = cc.Site.from_desc(site_desc)
     ref = cc.RefCrawl(site, opts)
     ids = cc.Ids()
-    start = ['http://%s%s' % (cc.HOST, site.start)]
+    start = site.start_urls()
     t1 = [e for e in ev1 if e['op'] not in ('server-request', 'exit')]
     t2 = [e for e in ev2 if e['op'] not in ('server-request', 'exit')]
     killed = rc1 == 77
@@ -202,7 +202,7 @@ def judge(ctx, r, reply, case, site, opts, full_requests):
         ctx.fail('lost-url', 'kill-window', case, 'requested by an uninterrupted crawl but by neither run: %s' % sorted(missing))
 
 
-def explore_site(ctx, site, opts, conc, seed, stride=1):
+def explore_site(ctx, site, opts, conc, seed, stride=1, only=None):
     import concurrent.futures as cf
     import multiprocessing as mp
     desc = site.describe()
@@ -214,6 +214,8 @@ def explore_site(ctx, site, opts, conc, seed, stride=1):
     points = [('table', k) for k in range(1, c['table'] + 1, stride)] + \
              [('commit', k) for k in range(1, c['commit'] + 1, stride)] + \
              [('request', k) for k in range(1, c['request'] + 1)]
+    if only:
+        points = [kp for kp in points if only(kp)]
     args = [(desc, opts, conc, seed, kp) for kp in points]
     with cf.ProcessPoolExecutor(max_workers=min(ctx.jobs, max(1, len(args))), mp_context=mp.get_context('fork')) as exr:
         results = list(exr.map(one_kill, args))
@@ -261,8 +263,20 @@ def run(ctx):
     ctx.note('kill_points_total', total)
 
 
+def big_input_site(n=1100):
+    """More input URLs than one add_many batch of InputURLTask holds (1000): start-up commits them in pieces."""
+    site = cc.Site()
+    site.pages['/'] = {'kind': 'html', 'links': [('/u0', False)]}
+    site.inputs = n
+    return site
+
+
 def search(ctx):
     rng = ctx.subrng('search')
+    # a kill between the commits of a long input list (start-up, before the crawl proper)
+    explore_site(ctx, big_input_site(), {'recursive': False, 'level': None, 'page_requisites': False, 'no_parent': False,
+                                         'accept_regex': None, 'reject_regex': None}, 2, 7,
+                 only=lambda kp: kp[0] == 'commit' and kp[1] <= 8)
     for i in range(2):
         site = cc.gen_site(rng, size=rng.randint(3, 5), offsite=False)
         explore_site(ctx, site, cc.gen_options(rng, levelfree=True), rng.choice([1, 2]), rng.randrange(1 << 30))
